@@ -70,6 +70,10 @@ FirstFieldDiff(a, b) ==
   ELSE LET ds == { n \in DOMAIN a.f \ {"Signature"} : a.f[n] # b.f[n] } IN
        IF ds = {} THEN "" ELSE CHOOSE n \in ds : TRUE
 
+\* the RRSIG value handed to Sign was not fresh (it had signed another RRset, or came with every field filled in): req is the
+\* value as it was, SignFills says what of it may show in the result (the original TTL, nothing else); filed apart
+Reused(e) == IF "reused" \in DOMAIN e /\ e.reused # "" THEN ":reused-sig-struct" ELSE ""
+
 SignKey(e) ==
   IF ~WFEvent(e) \/ ~WFSig(e.req) THEN "trace/sign-ill-formed"
   ELSE IF ~UniformOwner(e.rrset) \/ ~WFRRset(e.rrset) THEN "trace/sign-not-an-rrset"
@@ -78,9 +82,9 @@ SignKey(e) ==
     IF ~EmitX([id |-> e.id, kind |-> "sign", feature |-> TypedFeature(e.rrset), data |-> SignedData(want.f, e.rrset),
                \* the octets for the RRSIG as Sign actually filled it (they differ from `data' when the fields are wrong)
                dataout |-> IF e.ok /\ WFSig(e.out) THEN SignedData(e.out.f, e.rrset) ELSE <<>>]) THEN "trace/emit"
-    ELSE IF ~e.ok THEN K(e, "dnssec/sign-error", feat)
+    ELSE IF ~e.ok THEN K(e, "dnssec/sign-error", feat \o Reused(e))
     ELSE IF ~WFSig(e.out) THEN "dnssec/sign-fields:ill-formed"
-    ELSE IF FirstFieldDiff(e.out, want) # "" THEN K(e, "dnssec/sign-fields", FirstFieldDiff(e.out, want) \o ":" \o feat)
+    ELSE IF FirstFieldDiff(e.out, want) # "" THEN K(e, "dnssec/sign-fields", FirstFieldDiff(e.out, want) \o ":" \o feat \o Reused(e))
     ELSE ""
 
 CheckKey(e) ==
@@ -88,6 +92,12 @@ CheckKey(e) ==
   ELSE IF EmitX([id |-> e.id, kind |-> "check", feature |-> TypedFeature(e.rrset), dataout |-> <<>>,
                  data |-> IF WFRRset(e.rrset) THEN SignedData(e.sig.f, e.rrset) ELSE <<>>]) THEN ""
   ELSE "trace/emit"
+
+\* RSA keys at the size limits of RFC 3110 (a modulus of 512 resp. 64 octets behind the exponent) are filed apart
+KeyFeature(key) ==
+  IF key.f.Algorithm \notin {5, 7, 8, 10} THEN ""
+  ELSE IF Len(key.f.PublicKey) > 500 THEN ":rsa-4096-bit-key"
+  ELSE IF Len(key.f.PublicKey) < 80 THEN ":rsa-512-bit-key" ELSE ""
 
 FirstPreFail(sig, key, rrset) ==
   IF ~WFRRset(rrset) THEN "not-an-rrset"
@@ -119,7 +129,7 @@ VerifyKey(e) ==
              ELSE IF e.kind = "ddd-spelling" THEN "dnssec/verify-rejects-valid:ddd-spelling"
              ELSE IF e.kind = "rdata-name-case" \/ vf = "rdata-name-uppercase"
                THEN K(e, "dnssec/verify-rejects-valid", tn \o ":rdata-name-case")
-             ELSE K(e, "dnssec/verify-rejects-valid", e.kind \o ":" \o vf))
+             ELSE K(e, "dnssec/verify-rejects-valid", e.kind \o ":" \o vf \o KeyFeature(e.key)))
     ELSE IF ~e.sigok /\ PreChecks(e.sig, e.key, e.rrset) THEN
        \* accepted although the primitive rejects the signature over the specified octets.  When the variant denotes the
        \* very octets and signature of the signed original, the fault lies with what was signed, not with the variant.
